@@ -8,7 +8,7 @@
    intermediate text and the parse result) plus the C++ sweeps (all 2^32 floats in
    the thorough tier). *)
 From Coq Require Import NArith List Bool.
-From Qv Require Import gen.Tables_digit DigitModel DigitModelSpec DigitProofsRoundtrip.
+From Qv Require Import gen.Tables_digit DigitModel DigitModelSpec DigitProofsInt DigitProofsRoundtrip DigitProofsRoundtripInt.
 Import ListNotations.
 Local Open Scope N_scope.
 
@@ -29,3 +29,20 @@ Print Assumptions c11_on_model_sample_double.
 Theorem c11_on_model_sample_float : forallb rt_float_ok rt_sample_float = true.
 Proof. exact rt_sample_float_ok. Qed.
 Print Assumptions c11_on_model_sample_float.
+
+(* ================= Phase 3: integers ================= *)
+(* double_of_nat n: the bit pattern of the double n (exponent field 1023 + log2 n, mantissa n * 2^(52 - log2 n) - 2^52).
+   For EVERY natural 0 < n < 2^53: formatting with 17 digits gives the decimal numeral of n (u64_to_string n,
+   proved to be the decimal representation in c10_int_exact) and parsing it gives the natural number n,
+   which denotes the same double: the integer paths of both directions compose. *)
+Theorem c11_integers_roundtrip : forall n, 0 < n -> n < 2 ^ 53 ->
+  roundtrip finfo_double 17 (double_of_nat n)
+  = Ok (u64_to_string n, mkPres qn_natural n (N.of_nat (length (u64_to_string n)))).
+Proof. exact roundtrip_integer_double. Qed.
+Print Assumptions c11_integers_roundtrip.
+
+Theorem c11_integers_examples :
+  double_of_nat 1 = 4607182418800017408 /\ double_of_nat 3 = 4613937818241073152
+  /\ double_of_nat 9007199254740991 = 4845873199050653695.
+Proof. exact double_of_nat_examples. Qed.
+Print Assumptions c11_integers_examples.
